@@ -95,6 +95,14 @@ func c08ASTs(quick bool) []refxp.Expr {
 		abs(ds(&refxp.Step{Form: refxp.FormChild, Axis: "child", Test: refxp.Test{Kind: refxp.TName, Prefix: "p", Local: "*"}})),
 		abs(ds(&refxp.Step{Form: refxp.FormChild, Axis: "child", Test: refxp.Test{Kind: refxp.TName, Prefix: "*", Local: "a"}})),
 		abs(ds(&refxp.Step{Form: refxp.FormChild, Axis: "child", Test: refxp.Test{Kind: refxp.TName, Prefix: "*", Local: "div"}})))
+	// prefixes and local names that both spell axis names / node types
+	for _, pre := range []string{"p", "self", "child", "text", "node", "div"} {
+		for _, loc := range []string{"a", "self", "child", "text", "div", "*"} {
+			nt := refxp.Test{Kind: refxp.TName, Prefix: pre, Local: loc}
+			add(abs(ds(&refxp.Step{Form: refxp.FormChild, Axis: "child", Test: nt})), abs(child("r"), axisStep("child", nt)), abs(ds(child("*", rel(axisStep("self", nt))))),
+				call("count", abs(ds(&refxp.Step{Form: refxp.FormChild, Axis: "child", Test: nt}))))
+		}
+	}
 	// numeral forms and literals
 	for _, n := range []string{"1", "1.", ".5", "1.5", "01", "1.50", "0", "10", "007.700"} {
 		add(num(n), bin("+", num(n), num("1")), neg(num(n)), abs(ds(child("a", num(n)))))
